@@ -336,6 +336,10 @@ func run(c *fw.Ctx, idx int) {
 		raftLogCase(c, r, idx)
 		return
 	}
+	if idx < 2*nraft {
+		exportCase(c, r, idx)
+		return
+	}
 	switch idx % 8 {
 	case 0:
 		protoRoundTrip(c, r)
